@@ -189,6 +189,10 @@ REGEN = {
     "WrapOpts": ["editorWrapOpts", "editorWrap"],
     "IndentOpts": ["editorIndentOpts", "editorIndent"],
     "InsertTable": ["editorInsertTableOpts", "editorInsertTable"],
+    # T2
+    "BlockOps": ["blockAppendBlock", "blockRemove"],
+    "TwoCol": ["editorInsertTwoColumnsOpts", "editorInsertTwoColumns"],
+    "DefTable": ["editorInsertDefinitionsTableOpts", "editorInsertDefinitionsTable"],
 }
 REGEN_OF = {
     "C04": ["Chars"], "C05": ["Chars", "Commit"], "C06": ["Collapse", "Wrap", "WrapOpts"],
@@ -198,6 +202,10 @@ REGEN_OF = {
     "C17": ["Options", "WrapOpts", "IndentOpts", "Collapse", "Apply", "Paras", "InsertTable"],
     "C18": ["Block", "Chars", "Lines", "Commit", "Edit"],
 }
+# T2: two-column layout (C14), definitions table (C15), both also delegation (C17) and totality (C18)
+for _p, _gs in (("C14", ["TwoCol"]), ("C15", ["BlockOps", "DefTable"]), ("C17", ["TwoCol", "BlockOps", "DefTable"]),
+                ("C18", ["TwoCol", "BlockOps", "DefTable"])):
+    REGEN_OF[_p] = REGEN_OF.get(_p, []) + _gs
 
 
 def regen_modules(root, pid):
@@ -216,6 +224,9 @@ REGEN_CXA = {"Chars": ["editorChars_cxA"], "Lines": ["editorLinesSel_cxA"], "Edi
              "WrapOpts": ["editorWrapOpts_cxA"], "IndentOpts": ["editorIndentOpts_cxA"],
              "Paras": ["editorApplyGParagraphsOpts_cxA", "defaultsOk_cxA", "literal_map_cxA"],
              "InsertTable": ["editorInsertTableOpts_cxA"]}
+REGEN_CXA.update({  # T2
+    "TwoCol": ["editorInsertTwoColumnsOpts_cxA", "editorInsertTwoColumns_cxA"],
+    "DefTable": ["editorInsertDefinitionsTableOpts_cxA", "editorInsertDefinitionsTable_cxA"]})
 
 
 def regen_theorems(pid):
